@@ -24,7 +24,8 @@ RULE = ("direct: random Atom records, each with at most one 'hostile' feature (s
         "end-to-end: generated structures with renumbering / insertion codes / offsets run through main_driver. "
         "Non-trivial: record with a hostile feature or a 4-char name; distinct = (layout, chain flag, feature, "
         "record type, name length, residue-name length)"
-        ' Round-2 additions: --ffout naming schemes in the end-to-end runs (per-atom residue names under CHARMM).')
+        ' Round-2 additions: --ffout naming schemes in the end-to-end runs (per-atom residue names under CHARMM).'
+        ' Round-3/4 additions: residue / atom names with +, -, _ from the shipped force fields; alternate-location flags on generated records and alt-loc inputs; titrated-state names under --ffout.')
 ASSUMPTIONS = ["fixed-column layout as documented in docs/source/formats/pqr.rst and written by get_pqr_string",
                "charges within +-9.9999 and radii < 10 (the property's quantifier)"]
 MIN = {"quick": {"records_compared": 15000, "own_reader_records": 5000, "e2e_runs": 30},
